@@ -23,6 +23,11 @@ func main() {
 			fmt.Fprintln(os.Stderr, err)
 			os.Exit(2)
 		}
+	case "run":
+		if err := runCases(f); err != nil {
+			fmt.Fprintln(os.Stderr, err)
+			os.Exit(2)
+		}
 	case "probe":
 		for _, s := range f.Args {
 			probe(s)
